@@ -62,3 +62,11 @@ def replay(rec) -> int:
     f = vt_common.judge(rec["scn"], rec["expected"], rec["sched"])
     print(json.dumps(f, default=str)[:2000] if f else "replay: observation allowed by the spec")
     return 1 if f else 0
+
+
+META = {
+    'technique': 'TLC-enumerated call histories of VirtualTime.tla replayed stepwise on the three real virtual-time schedulers',
+    'level': 'TLC checks order/clock/advance invariants on every state of the bounded history space of VirtualTime.tla and exports every history with its allowed observations; each is performed on VirtualTimeScheduler, TestScheduler and HistoricalScheduler and the per-command clock and run log must be one the spec allows. Exhaustive up to the stated command budget, simulated beyond it.',
+    'note': "TLC 1.8; the replayer's command codec; tick = 1 s",
+    'ref': 'DESIGN.md 6 C28, D.4',
+}
